@@ -17,7 +17,7 @@
 (*   imp    declaration sets x import forms of main (m1, m2) x m1 -> m2    *)
 (*   scope  top-level let x two nested scopes (kind, binder) x later let   *)
 (*          x function parameter                                           *)
-(* Environment: C21_FAM, C21_TIER, C21_SEED, C21_SLICE, C21_NSLICES, OUTDIR*)
+(* Environment: C21_FAM, C21_TIER, C21_SEED, C21_NSLICES, OUTDIR           *)
 (***************************************************************************)
 EXTENDS AbraResolve, Json, IOUtils, SequencesExt
 VARIABLE lay
@@ -25,7 +25,6 @@ VARIABLE lay
 Tier == IOEnv.C21_TIER
 Fam == IOEnv.C21_FAM
 Seed == atoi(IOEnv.C21_SEED)
-SliceNo == atoi(IOEnv.C21_SLICE)
 NSlices == atoi(IOEnv.C21_NSLICES)
 
 ForLeakKey == "C21|for-variable-visible-after-loop"
@@ -42,6 +41,8 @@ Forms(pool, aliases) ==
 Rot(pool) == [i \in 1..Len(pool) |-> pool[((i - 1 + Seed) % Len(pool)) + 1]]
 
 \* ---------------------------------------------------------------- family imp
+\* miss: main also imports a file that does not exist; dl: declarations after the statements that use them;
+\* (with dl) the imported files live in a subdirectory and are imported by path (`use lib/m1`)
 ImpBox(pool, dmS, d1S, d2S, f1S, f2S, f12S, missS, dlS) ==
   {[fam |-> "imp", pool |-> pool, dm |-> dm, d1 |-> d1, d2 |-> d2, f1 |-> f1, f2 |-> f2, f12 |-> f12,
     miss |-> miss, dl |-> dl] :
@@ -49,20 +50,25 @@ ImpBox(pool, dmS, d1S, d2S, f1S, f2S, f12S, missS, dlS) ==
 P2 == <<"a", "b">>
 P3 == <<"a", "b", "c">>
 F12All == {NoImp, [form |-> "glob", names |-> <<>>, alias |-> ""], [form |-> "as", names |-> <<>>, alias |-> "q"]}
+Glob == [form |-> "glob", names |-> <<>>, alias |-> ""]
+AsQ == [form |-> "as", names |-> <<>>, alias |-> "q"]
 ImpLayouts ==
   IF Tier = "thorough"
-  THEN ImpBox(P2, SubSeqsOf(P2), SubSeqsOf(P2), SubSeqsOf(P2) \ {<<>>}, Forms(P2, {"p", "a"}), Forms(P2, {"p", "q"}),
-              F12All, {FALSE}, {FALSE})
-       \cup ImpBox(P2, {<<"a">>}, {<<"a", "b">>}, {<<"b">>}, Forms(P2, {"p", "a"}), Forms(P2, {"p", "q"}),
-                   {[form |-> "glob", names |-> <<>>, alias |-> ""]}, {TRUE}, {TRUE})
-       \cup ImpBox(P3, {<<"c">>}, {<<"a", "b", "c">>, <<"a", "c">>}, {<<"b", "c">>},
-                   Forms(P3, {"p"}), Forms(P3, {"q"}), {NoImp}, {FALSE}, {FALSE})
+  THEN \* which names collide: declared sets x every pair of import forms of main
+       ImpBox(P2, {<<>>, <<"a">>}, {<<"a">>, <<"b">>, P2}, {<<"a">>, P2}, Forms(P2, {"p", "a"}), Forms(P2, {"p", "q"}),
+              {Glob}, {FALSE}, {FALSE})
+       \* m1 does not import m2 / imports it under a prefix
+       \cup ImpBox(P2, {<<"a">>}, {P2}, {<<"a">>}, Forms(P2, {"p", "a"}), Forms(P2, {"p", "q"}), {NoImp, AsQ}, {FALSE}, {FALSE})
+       \* a missing file, declarations after their uses, files in a subdirectory
+       \cup ImpBox(P2, {<<"a">>}, {P2}, {<<"b">>}, Forms(P2, {"p", "a"}), Forms(P2, {"p", "q"}), {Glob}, {TRUE}, {TRUE})
+       \* three names: lists of one, two and three names
+       \cup ImpBox(P3, {<<"c">>}, {P3}, {<<"b", "c">>}, Forms(P3, {"p"}), {f \in Forms(P3, {"q"}) : Len(f.names) # 1},
+                   {NoImp}, {FALSE}, {FALSE})
   ELSE LET r == Rot(P2)
-           f12 == CHOOSE f \in F12All : f.form = <<"glob", "as", "none">>[(Seed % 3) + 1]
-       IN ImpBox(P2, {<<>>, <<r[1]>>}, {<<r[1]>>, P2}, {<<r[1]>>, <<r[2]>>}, Forms(P2, {"p", "a"}), Forms(P2, {"p", "q"}),
-                 {f12}, {FALSE}, {FALSE})
-          \cup ImpBox(P2, {<<"a">>}, {P2}, {<<"b">>}, Forms(P2, {"p", "a"}), Forms(P2, {"p", "q"}),
-                      {[form |-> "glob", names |-> <<>>, alias |-> ""]}, {TRUE}, {TRUE})
+           f12 == <<Glob, AsQ, NoImp>>[(Seed % 3) + 1]
+           F2 == {f \in Forms(P2, {"p", "q"}) : f.form \in {"none", "glob", "as"} \/ f.names \in {<<r[1]>>, P2}}
+       IN ImpBox(P2, {<<>>, <<r[1]>>}, {<<r[1]>>, P2}, {<<r[2]>>, P2}, Forms(P2, {"p", "a"}), F2, {f12}, {FALSE}, {FALSE})
+          \cup ImpBox(P2, {<<"a">>}, {P2}, {<<"b">>}, Forms(P2, {"p", "a"}), F2, {Glob}, {TRUE}, {TRUE})
 
 RECURSIVE QUses(_, _)
 QUses(prefs, pool) == IF prefs = <<>> THEN <<>>
@@ -73,14 +79,16 @@ ImpsOf(t, f) == IF f.form = "none" THEN <<>> ELSE <<Imp(t, f.form, f.names, f.al
 ImpProgram(l) ==
   LET prefs == <<"p", "q">> \o (IF l.f1.alias = "a" THEN <<"a">> ELSE <<>>)
       U == Uses(l.pool, prefs)
+      n1 == IF l.dl THEN "lib/m1" ELSE "m1"
+      n2 == IF l.dl THEN "lib/m2" ELSE "m2"
       main == FileRec("main",
-                ImpsOf("m1", l.f1) \o ImpsOf("m2", l.f2) \o (IF l.miss THEN <<Imp("m9", "glob", <<>>, "")>> ELSE <<>>),
+                ImpsOf(n1, l.f1) \o ImpsOf(n2, l.f2) \o (IF l.miss THEN <<Imp("m9", "glob", <<>>, "")>> ELSE <<>>),
                 l.dm,
                 <<ProbeFn("pr0", l.pool[Len(l.pool)], U)>>,
                 U \o <<Use("pr1"), Use("pr0"), Scope("block", l.pool[1], U)>> \o U,
                 l.dl)
-      m1 == FileRec("m1", ImpsOf("m2", l.f12), l.d1, <<ProbeFn("pr1", "k", Uses(l.pool, <<"q">>))>>, <<>>, l.dl)
-      m2 == FileRec("m2", <<>>, l.d2, <<>>, <<>>, FALSE)
+      m1 == FileRec(n1, ImpsOf(n2, l.f12), l.d1, <<ProbeFn("pr1", "k", Uses(l.pool, <<"q">>))>>, <<>>, l.dl)
+      m2 == FileRec(n2, <<>>, l.d2, <<>>, <<>>, FALSE)
   IN [files |-> <<main, m1, m2>>]
 
 FormCode(f) == CASE f.form = "none" -> "n" [] f.form = "glob" -> "g"
@@ -98,10 +106,10 @@ ScopeBox(tS, k1S, b1S, k2S, b2S, lS, pmS) ==
 N3 == {"", "a", "b", "c"}
 ScopeLayouts ==
   IF Tier = "thorough"
-  THEN ScopeBox(N3, ScopeKinds, N3, ScopeKinds, N3, {"", "a", "c"}, {"k"})
+  THEN ScopeBox({"", "a", "c"}, ScopeKinds, N3, ScopeKinds, {"", "a", "c"}, {"", "a"}, {"k"})
        \cup ScopeBox(N3, {"block"}, N3, {"block"}, {""}, {""}, {"a", "b", "c"})
   ELSE LET r == Rot(P3)
-       IN ScopeBox({"", r[1]}, ScopeKinds, {"", r[1], r[3]}, ScopeKinds, {"", r[1], r[2]}, {"", r[3]}, {"k"})
+       IN ScopeBox({"", r[1]}, ScopeKinds, {"", r[1], r[3]}, ScopeKinds, {"", r[1]}, {"", r[3]}, {"k"})
           \cup ScopeBox({"", r[1]}, {"block"}, {"", r[2]}, {"block"}, {""}, {""}, {"a", "b", "c"})
 
 LetOpt(n) == IF n = "" THEN <<>> ELSE <<LetS(n)>>
@@ -126,7 +134,7 @@ IdOf(l) == IF l.fam = "imp" THEN ImpId(l) ELSE ScopeId(l)
 Mode(prune, safe) == IF prune THEN (IF safe THEN "safe" ELSE "pruned") ELSE (IF safe THEN "fullsafe" ELSE "full")
 
 MkCase(l, v, variant) ==
-  [id |-> IdOf(l) \o "/" \o variant, layout |-> l, variant |-> variant, files |-> v.files, diags |-> TRUE,
+  [id |-> IdOf(l) \o "/" \o variant, layout |-> l, variant |-> variant, files |-> v.files,
    mode |-> v.mode, expect |-> v.expect, expect_diags |-> v.expect_diags, ignore |-> v.ignore, tags |-> v.tags,
    msg_unresolved |-> MsgUnresolved, clash_suffix |-> ClashSuffix,
    nclash |-> v.nclash, nunres |-> v.nunres, ntaint |-> v.ntaint, nlines |-> v.nlines]
@@ -145,7 +153,9 @@ CasesOf(l) ==
 
 Layouts == IF Fam = "imp" THEN ImpLayouts ELSE ScopeLayouts
 LaySeq == SetToSeq(Layouts)
-Init == \E i \in 1..Len(LaySeq) : i % NSlices = SliceNo /\ lay = LaySeq[i]
-Next == FALSE /\ UNCHANGED lay
-Emit == JsonSerialize(IOEnv.OUTDIR \o "/" \o IdOf(lay) \o ".json", CasesOf(lay))
+\* two levels, so that TLC's workers share the enumeration: initial states are slices, their successors the layouts
+Init == lay \in {[fam |-> "slice", k |-> k] : k \in 0..(NSlices - 1)}
+Next == /\ lay.fam = "slice"
+        /\ \E i \in 1..Len(LaySeq) : i % NSlices = lay.k /\ lay' = LaySeq[i]
+Emit == lay.fam # "slice" => JsonSerialize(IOEnv.OUTDIR \o "/" \o IdOf(lay) \o ".json", CasesOf(lay))
 =============================================================================
